@@ -32,7 +32,10 @@ type dkgModel struct {
 }
 
 type waitFn struct {
-	fn      *ssa.Function
+	fn      *ssa.Function // the phase's wait function (what KeyGen's phases call)
+	inner   *ssa.Function // the function that contains the Cond.Wait loop (fn itself, or a shared helper)
+	site    ssa.CallInstruction
+	bind    map[*ssa.Parameter]*ssa.MakeClosure // completion test passed to a shared helper
 	kind    string // shares | commitments | reveals
 	waitPos token.Pos
 }
@@ -91,30 +94,69 @@ func buildDKGModel(c *Ctx, b builtinBackend) *dkgModel {
 	if len(c.fatal) > 0 {
 		return nil
 	}
-	// wait functions: contain a sync.Cond.Wait call
+	// wait functions: contain a sync.Cond.Wait call.  A wait whose completion test is a func() bool
+	// parameter (one generic "wait until" helper shared by the phases) yields one wait per call site
+	// that passes a function literal: the literal is the phase's completion test.
+	classify := func(w *waitFn, f Fact) {
+		if l, _, ok := linFact(f); ok {
+			for t := range l.Terms {
+				switch {
+				case strings.Contains(t, "."+d.fShares.Name()+")") || (d.fSharesProcessed != nil && strings.HasSuffix(t, "."+d.fSharesProcessed.Name())):
+					w.kind = "shares"
+				case strings.Contains(t, "."+d.fCommitments.Name()+")"):
+					w.kind = "commitments"
+				case strings.Contains(t, "."+d.fPKs.Name()+")"):
+					w.kind = "reveals"
+				}
+			}
+		}
+	}
 	for _, fn := range d.fns {
 		for _, in := range instrsOf(fn) {
 			cl, ok := in.(*ssa.Call)
 			if !ok || !isCallTo(&cl.Call, "sync", "Cond.Wait") {
 				continue
 			}
-			w := &waitFn{fn: fn, waitPos: cl.Pos()}
+			// a func-typed parameter that fn invokes?
+			var pred *ssa.Parameter
+			for _, in2 := range instrsOf(fn) {
+				if c2, ok := in2.(*ssa.Call); ok && !c2.Call.IsInvoke() {
+					noParamLook++
+					v := strip(c2.Call.Value)
+					noParamLook--
+					if p, ok := v.(*ssa.Parameter); ok && p.Parent() == fn {
+						if sig, ok := p.Type().Underlying().(*types.Signature); ok && sig.Params().Len() == 0 && sig.Results().Len() == 1 {
+							pred = p
+						}
+					}
+				}
+			}
+			if pred != nil {
+				idx := paramIndex(pred)
+				for _, cs := range staticCallsTo(d.fns, fn) {
+					args := cs.Common().Args
+					if idx >= len(args) {
+						continue
+					}
+					mc, ok := strip(args[idx]).(*ssa.MakeClosure)
+					if !ok {
+						continue
+					}
+					w := &waitFn{fn: cs.Parent(), inner: fn, site: cs, waitPos: cl.Pos(), bind: map[*ssa.Parameter]*ssa.MakeClosure{pred: mc}}
+					for _, in3 := range instrsOf(mc.Fn.(*ssa.Function)) {
+						if bo, ok := in3.(*ssa.BinOp); ok {
+							classify(w, Fact{Op: bo.Op, X: bo.X, Y: bo.Y})
+						}
+					}
+					d.waits = append(d.waits, w)
+				}
+				continue
+			}
+			w := &waitFn{fn: fn, inner: fn, waitPos: cl.Pos()}
 			// classify by the field whose size the loop compares
 			for _, in2 := range instrsOf(fn) {
 				if iff, ok := in2.(*ssa.If); ok {
-					f := factOf(Guard{iff, true})
-					if l, _, ok := linFact(f); ok {
-						for t := range l.Terms {
-							switch {
-							case strings.Contains(t, "."+d.fShares.Name()+")") || (d.fSharesProcessed != nil && strings.HasSuffix(t, "."+d.fSharesProcessed.Name())):
-								w.kind = "shares"
-							case strings.Contains(t, "."+d.fCommitments.Name()+")"):
-								w.kind = "commitments"
-							case strings.Contains(t, "."+d.fPKs.Name()+")"):
-								w.kind = "reveals"
-							}
-						}
-					}
+					classify(w, factOf(Guard{iff, true}))
 				}
 			}
 			d.waits = append(d.waits, w)
@@ -317,9 +359,9 @@ func checkC05(c *Ctx) {
 			c.Unk(T1, FuncName(cls), "classification table", m.Pos(cls.Pos()), "ClassifyMsg idiom not recognised")
 		}
 		// ---------------------------------------------------------------- G3
-		from := ssa.Value(d.onMsg.Params[2])
+		from := strip(d.onMsg.Params[2])
 		for _, f := range []*types.Var{d.fShares, d.fCommitments, d.fPKs} {
-			ups := mapUpdatesOfField([]*ssa.Function{d.onMsg}, f)
+			ups := mapUpdatesOfField(deepFuncs(d.onMsg), f)
 			if len(ups) == 0 {
 				c.Bad(G3, FuncName(d.onMsg), "store into "+f.Name(), "-", "OnMsg never records this contribution")
 			}
@@ -665,9 +707,9 @@ func onlyLoopGuards(in ssa.Instruction) bool {
 // PS: lengths of decoded vectors validated before the contribution is stored.
 func (d *dkgModel) rulePSLengths(c *Ctx, rule string) {
 	m := d.m
-	msgBytes := ssa.Value(d.onMsg.Params[1])
+	msgBytes := strip(d.onMsg.Params[1])
 	for _, f := range []*types.Var{d.fShares, d.fPKs} {
-		for _, mu := range mapUpdatesOfField([]*ssa.Function{d.onMsg}, f) {
+		for _, mu := range mapUpdatesOfField(deepFuncs(d.onMsg), f) {
 			stored := d.sl.Slice(mu.Value)
 			ok := hasFact(FactsAt(mu), func(fct Fact) bool {
 				if fct.Op != token.EQL {
@@ -761,24 +803,31 @@ func (d *dkgModel) ruleWaits(c *Ctx, O1 string) {
 		}
 		// returns: nil only under the threshold fact; non-nil on the expiry exit
 		okNil, okExp := true, false
-		for _, in := range instrsOf(fn) {
-			r, ok := in.(*ssa.Return)
-			if !ok {
-				continue
+		withClosureBinding(w.bind, func() {
+			for _, in := range instrsOf(w.inner) {
+				r, ok := in.(*ssa.Return)
+				if !ok {
+					continue
+				}
+				rv := retResult(r, 0)
+				if isNilConst(rv) {
+					if !d.thresholdFact(c, w, r) {
+						okNil = false
+					}
+				} else if contextEndedAt(r) {
+					// reached on the arm where the context ended
+					okExp = true
+				}
 			}
-			rv := retResult(r, 0)
-			if isNilConst(rv) {
-				if !d.thresholdFact(c, w, r) {
+		})
+		if w.inner != fn {
+			// the phase function hands the helper's verdict on
+			if cl, isCall := w.site.(*ssa.Call); isCall {
+				if ok, _ := errorHonoured(cl); !ok {
 					okNil = false
 				}
 			} else {
-				// reached on the arm where the context ended
-				if boolFact(FactsAt(r), true, func(v ssa.Value) bool {
-					cl, ok := v.(*ssa.Call)
-					return ok && staticCallee(&cl.Call) != nil && staticCallee(&cl.Call).Name() == "contextTimedOut"
-				}) {
-					okExp = true
-				}
+				okNil = false
 			}
 		}
 		c.Check(okNil && okExp, O1, fname, "expiry is reported", m.Pos(fn.Pos()), "nil only under the threshold; non-nil error on the context-ended exit",
@@ -813,4 +862,41 @@ func (d *dkgModel) ruleWaits(c *Ctx, O1 string) {
 		up(fn)
 	}
 
+}
+
+// contextEndedAt: the instruction is reached only after the context was found ended: the select-based
+// helper returned true, ctx.Err() != nil, or the Done arm of an inline select was taken.
+func contextEndedAt(in ssa.Instruction) bool {
+	return hasFact(FactsAt(in), func(f Fact) bool {
+		if f.Op == 0 && f.True {
+			if cl, ok := f.Bool.(*ssa.Call); ok {
+				if g := staticCallee(&cl.Call); g != nil {
+					for _, x := range instrsOf(g) {
+						if sel, ok := x.(*ssa.Select); ok {
+							for _, st := range sel.States {
+								if dc, ok := strip(st.Chan).(*ssa.Call); ok && dc.Call.IsInvoke() && dc.Call.Method.Name() == "Done" {
+									return true
+								}
+							}
+						}
+					}
+				}
+			}
+		}
+		if f.Op == token.NEQ && isNilConst(f.Y) {
+			if cl, ok := strip(f.X).(*ssa.Call); ok && cl.Call.IsInvoke() && cl.Call.Method.Name() == "Err" && isContextType(cl.Call.Value.Type()) {
+				return true
+			}
+		}
+		if e, ok := strip(f.X).(*ssa.Extract); ok && e.Index == 0 && f.Op == token.EQL {
+			if sel, ok := e.Tuple.(*ssa.Select); ok {
+				if k, okK := constInt(f.Y); okK && int(k) >= 0 && int(k) < len(sel.States) {
+					if dc, ok := strip(sel.States[k].Chan).(*ssa.Call); ok && dc.Call.IsInvoke() && dc.Call.Method.Name() == "Done" {
+						return true
+					}
+				}
+			}
+		}
+		return false
+	})
 }
